@@ -217,8 +217,12 @@ pub fn fuzz_one(data: &[u8], obs: &mut Obs) {
     for (i, e) in list.iter().enumerate() {
         if let ds::Horizontal::Discretionary(d) = e {
             let r = d.replace_count as usize;
-            if i + r >= list.len() + usize::from(r == 0) || list[i + 1..=i + r].iter().any(|x| matches!(x, ds::Horizontal::Discretionary(_))) {
-                obs.skip("fuzz:discretionary-replaces-missing-nodes-or-another-discretionary");
+            // (TeX §841/§869: characters, ligatures, boxes, rules and kerns only - anything else is `confusion`)
+            let box_like = |x: &ds::Horizontal| {
+                matches!(x, ds::Horizontal::Char(_) | ds::Horizontal::Ligature(_) | ds::Horizontal::HBox(_) | ds::Horizontal::VBox(_) | ds::Horizontal::Rule(_) | ds::Horizontal::Kern(_))
+            };
+            if i + r >= list.len() + usize::from(r == 0) || !list[i + 1..=i + r].iter().all(box_like) {
+                obs.skip("fuzz:discretionary-replaces-missing-nodes-or-nodes-that-are-not-box-like");
                 return;
             }
         }
@@ -447,8 +451,8 @@ fn word(c: char, n: usize) -> Vec<ds::Horizontal> {
     (0..n).map(|_| gen::ch(c, 0)).collect()
 }
 
-/// Fixed reproducer of C04-explicit-kern-ending-replaced-range-is-a-breakpoint (the shape is outside the model's domain,
-/// see `Model::new`): x x \discretionary{-}{}{d\kern10pt} <glue> y y. TeX steps over the two replaced nodes: the legal
+/// Fixed reproducer of C04-explicit-kern-ending-replaced-range-is-a-breakpoint (repaired in /repo 561c320; since then the
+/// shape is inside the model's domain as well and the generated phases cover it): x x \discretionary{-}{}{d\kern10pt} <glue> y y. TeX steps over the two replaced nodes: the legal
 /// breakpoints are the discretionary (index 2) and the glue (index 5, prev_p = the discretionary). The code under test
 /// visits the replaced nodes and logs a feasible break AT the kern (index 4), never at the glue.
 const KNOWN_REPLACED_KERN: &str = "C04-explicit-kern-ending-replaced-range-is-a-breakpoint";
